@@ -15,7 +15,7 @@ import core
 
 def harness_text(ob):
     d = ob.dfcc
-    L = ['#include <stdint.h>', '#include <stddef.h>', '#include <stdbool.h>', '#include "closure.c"', 'void harness(void) {']
+    L = ['#define VF_CBMC 1', '#include "spec_lib.h"', '#include "closure.c"', 'void harness(void) {']
     L.append(d['harness'])
     L.append('  __CPROVER_assert(0, "CANARY");')
     L.append('}')
